@@ -1,0 +1,41 @@
+// Verification hook (only with `--cfg tokio_rs_bytes_verif`): read-only view of
+// the hidden representation of a `BytesMut` handle.
+use super::*;
+use crate::verif::*;
+
+impl BytesMut {
+    #[doc(hidden)]
+    pub fn verif_repr(&self) -> Repr {
+        let data = self.data as usize;
+        let mut r = Repr {
+            data,
+            ptr: self.ptr.as_ptr() as usize,
+            len: self.len,
+            cap: self.cap,
+            ..Repr::default()
+        };
+        if self.kind() == KIND_VEC {
+            r.kind = M_VEC;
+            r.vec_pos = data >> VEC_POS_OFFSET;
+            r.orig_cap_repr = (data & ORIGINAL_CAPACITY_MASK) >> ORIGINAL_CAPACITY_OFFSET;
+        } else {
+            r.kind = M_ARC;
+            unsafe { fill_shared(&mut r, data) };
+        }
+        r
+    }
+}
+
+pub(crate) fn is_shared_vtable(vt: &'static Vtable) -> bool {
+    vt as *const Vtable == &SHARED_VTABLE as *const Vtable
+}
+
+pub(crate) unsafe fn fill_shared(r: &mut Repr, shared: usize) {
+    let shared = shared as *const Shared;
+    r.ctrl = shared as usize;
+    r.ref_cnt = (*shared).ref_count.load(Ordering::Relaxed);
+    r.buf = (*shared).vec.as_ptr() as usize;
+    r.buf_cap = (*shared).vec.capacity();
+    r.buf_len = (*shared).vec.len();
+    r.orig_cap_repr = (*shared).original_capacity_repr;
+}
